@@ -23,6 +23,21 @@ def setAttr : List Attr → Str → Str → List Attr
   | [], k, v => [(k, v)]
   | (k', v') :: r, k, v => if k' == k then (k, v) :: r else (k', v') :: setAttr r k v
 
+def sVHtml : Str := "data-v-html-content".toList
+def sVText : Str := "data-v-text-content".toList
+def sTemplate : Str := "template".toList
+def sScript : Str := "script".toList
+def sStyle : Str := "style".toList
+def sVKeep : Str := "v-keep".toList
+
+/-- the loop `for _, attr := range node.Attr { if html-content {..; break}; if text-content {..; break} }` -/
+def contentAttrs : List Attr → Str × Str
+  | [] => ([], [])
+  | (k, v) :: r =>
+    if k == sVHtml then (v, [])
+    else if k == sVText then ([], v)
+    else contentAttrs r
+
 mutual
 def Node.size : Node → Nat
   | .elem _ _ kids => 1 + Node.sizeList kids
